@@ -159,6 +159,40 @@ pub fn emit(sh: &mut Shards, st: &mut Stats, case: &Case, source: &str) {
             }
         }
     }
+    for s in &case.stmts {
+        for e in &s.entries {
+            st.count(match e.reversal {
+                Some(true) => "rvsl_ind:entry:true",
+                Some(false) => "rvsl_ind:entry:false",
+                None => "rvsl_ind:entry:absent",
+            });
+            for d in &e.details {
+                st.count(match (d.reversal, e.details.len() >= 2) {
+                    (Some(true), true) => "rvsl_ind:detail in a batch:true",
+                    (Some(true), false) => "rvsl_ind:single detail:true",
+                    (Some(false), _) => "rvsl_ind:detail:false",
+                    (None, _) => "rvsl_ind:detail:absent",
+                });
+            }
+        }
+    }
+    if case.stmts.iter().any(|s| s.entries.iter().any(|e| e.reversal == Some(true) || e.details.iter().any(|d| d.reversal == Some(true)))) {
+        st.count("rvsl_ind:cases with a reversal entry or detail");
+    }
+    {
+        let (chrgs, zero_chrgs) = camtgen::charge_elements(case);
+        let nz = camtgen::nonzero_charges(case);
+        let what = if chrgs == 0 {
+            "no Chrgs element"
+        } else if nz == 0 {
+            "only Chrgs that book nothing (zero total / zero-amount records)"
+        } else {
+            "a non-zero charge record"
+        };
+        st.count(&format!("operator:{}:{}", if case.cfg.operator.is_some() { "configured" } else { "absent" }, what));
+        st.add("shape:chrgs_elements", chrgs as u64);
+        st.add("shape:chrgs_elements_booking_nothing", zero_chrgs as u64);
+    }
     if case.cfg.new_to_old {
         st.count("row_order:new_to_old");
     } else {
@@ -271,9 +305,9 @@ fn seed_cases() -> Vec<Case> {
     let d = |day: u32| XDate { y: 2021, m: 10, d: day, dttm: None };
     let cfg = Cfg { account: "Assets:Okane Bank".into(), operator: Some("Okane Bank (fee)".into()), new_to_old: false, commodity: "CHF".into(), precisions: vec![("CHF".into(), 2), ("EUR".into(), 2)] };
     let plain = |m: i64, s: u32, credit: bool, bk: u32, vd: Option<u32>, k: u32| Entry {
-        amt: chf(m, s), credit, booking: d(bk), value: vd.map(d), charges: None, dtls_element: true, details: vec![], info: format!("N{}", k), frag: Frag::default(), batch: BatchHdr::Consistent,
+        amt: chf(m, s), credit, booking: d(bk), value: vd.map(d), charges: None, dtls_element: true, details: vec![], info: format!("N{}", k), frag: Frag::default(), batch: BatchHdr::Consistent, reversal: Some(false), charges_total: None,
     };
-    let det = |m: i64, s: u32, credit: bool, k: &str| Detail { reference: Some(format!("20211031/{}", k)), amt: chf(m, s), credit, details: None, charges: None, info: Some(format!("T{}", k)), frag: Frag { payee: Some("Jiro Okane".into()), account: Some("Expenses:House".into()), pending: false }, parties: None };
+    let det = |m: i64, s: u32, credit: bool, k: &str| Detail { reference: Some(format!("20211031/{}", k)), amt: chf(m, s), credit, details: None, charges: None, info: Some(format!("T{}", k)), frag: Frag { payee: Some("Jiro Okane".into()), account: Some("Expenses:House".into()), pending: false }, parties: None, reversal: None, charges_total: None };
     let mut e3 = plain(2000, 0, false, 3, Some(3), 3);
     e3.details = vec![det(1880, 0, false, "3/1"), det(120, 0, false, "3/2")];
     let mut e7 = plain(52, 0, false, 8, Some(7), 7);
@@ -304,14 +338,36 @@ fn seed_cases() -> Vec<Case> {
     let mut zero_close = base.clone();
     zero_close.stmts[0].entries = vec![plain(6000, 0, true, 2, Some(2), 2), plain(6100, 0, false, 5, Some(4), 4)];
     zero_close.stmts[0].balances[1].amt = chf(0, 2);
-    vec![base, rev, empty, neg, zero_open, zero_close]
+    // a returned payment: the entries flagged as reversals (plain, single detail, batch; the flag
+    // repeated inside the TxDtls) keep the direction their CdtDbtInd states
+    let mut rvsl = base.clone();
+    for (i, e) in rvsl.stmts[0].entries.iter_mut().enumerate() {
+        e.reversal = if i % 2 == 0 { Some(true) } else { None };
+        for d in e.details.iter_mut() {
+            d.reversal = Some(i % 2 == 1);
+        }
+    }
+    // no `operator`: the zero-amount charge record and a Chrgs element with only a zero total book
+    // nothing and need none; the 14 CHF charge of the last entry does
+    let mut noop = base.clone();
+    noop.cfg.operator = None;
+    noop.stmts[0].entries[0].charges = Some(vec![]);
+    noop.stmts[0].entries[0].charges_total = Some(chf(0, 2));
+    noop.stmts[0].entries[3].charges = Some(vec![ChargeRec { amt: chf(0, 2), credit: false, included: Some(true) }]);
+    noop.stmts[0].entries[3].details[0].details = None;
+    noop.stmts[0].entries[3].details[0].charges = Some(vec![ChargeRec { amt: chf(0, 0), credit: true, included: None }]);
+    noop.stmts[0].entries[3].details[0].charges_total = Some(chf(0, 2));
+    let mut noop_fail = noop.clone();
+    noop.stmts[0].entries[5].details[0].charges = Some(vec![ChargeRec { amt: chf(0, 0), credit: true, included: None }]);
+    noop_fail.tag = "error".into();
+    vec![base, rev, empty, neg, zero_open, zero_close, rvsl, noop, noop_fail]
 }
 
 pub fn run(o: &Opts) {
     let mut st = Stats::new();
     // smaller files in the thorough tier: coqc memory grows with the size of the case literal
     let mut sh = Shards::new(&o.out, if o.thorough { o.shards * 6 } else { o.shards }, HEADER);
-    st.rule = "Camt053 XML generated from statement data (1-2 statements of 0-8 entries; credits and debits; entries without details, with one detail, batches of 2-4 details summing to the entry, whose NtryDtls has a Btch header with NbOfTxs = the number of TxDtls (half), no Btch element at all (a quarter), or an NbOfTxs that is smaller (possibly 0) or larger than the number of TxDtls (the importer does not read the field: every TxDtls is a record); included / not-included / zero / credit charge records on entries and details with TxAmt explaining included charges; entries starting up to 8 days before a calendar boundary drawn on purpose (the days around New Year whose ISO week belongs to the neighbouring year, 1 January / 31 December, leap days, 28 February / 1 March of 1900 and 2100, month ends, years 1900-2100) and running across it; value date absent / equal / up to two days earlier, Dt and DtTm with offsets from -12:00 to +14:00; both row orders; OPBD/CLBD in either order; opening balance of exactly 0 and closing balance of exactly 0 in about 1/8 of the statements each; per-record rewrite rules giving payee / account / pending) plus inconsistent variants (wrong closing balance, batch not summing, unexplained charge, missing balance), foreign-currency details with exchange rates and error variants; run through import(Format::IsoCamt053) + to_double_entry, printed as ImportCmd does and fed with a funding transaction to report::process; non-trivial = at least 2 entries and at least one batch or non-zero charge; distinct by XML + configuration".into();
+    st.rule = "Camt053 XML generated from statement data (1-2 statements of 0-8 entries; credits and debits; entries without details, with one detail, batches of 2-4 details summing to the entry, whose NtryDtls has a Btch header with NbOfTxs = the number of TxDtls (half), no Btch element at all (a quarter), or an NbOfTxs that is smaller (possibly 0) or larger than the number of TxDtls (the importer does not read the field: every TxDtls is a record); included / not-included / zero / credit charge records on entries and details with TxAmt explaining included charges; entries starting up to 8 days before a calendar boundary drawn on purpose (the days around New Year whose ISO week belongs to the neighbouring year, 1 January / 31 December, leap days, 28 February / 1 March of 1900 and 2100, month ends, years 1900-2100) and running across it; value date absent / equal / up to two days earlier, Dt and DtTm with offsets from -12:00 to +14:00; both row orders; OPBD/CLBD in either order; opening balance of exactly 0 and closing balance of exactly 0 in about 1/8 of the statements each; per-record rewrite rules giving payee / account / pending; RvslInd true / false / absent on entries (1/6, 2/3, 1/6) and true / false / absent inside TxDtls of single details and batches (1/8, 1/8, 3/4) - CdtDbtInd is the real direction of a reversal, so the element must change nothing; one configuration in five without `operator`, its statements with no Chrgs element, with Chrgs that book nothing (a zero TtlChrgsAndTaxAmt and no record, zero-amount records) or with real charges, which must fail with the invalid-configuration error; TtlChrgsAndTaxAmt absent or the sum of the records) plus inconsistent variants (wrong closing balance, batch not summing, unexplained charge, missing balance), foreign-currency details with exchange rates and error variants; run through import(Format::IsoCamt053) + to_double_entry, printed as ImportCmd does and fed with a funding transaction to report::process; non-trivial = at least 2 entries and at least one batch or non-zero charge; distinct by XML + configuration".into();
     st.assumptions.push("quick-xml/serde deserialisation is an oracle: the model starts from the statement data the XML was written from (xmlnode is a private module)".into());
     st.assumptions.push("amount mantissas below 10^7 with scale <= 4: every Decimal sum is exact; no negative-zero amount text in the XML".into());
     st.assumptions.push("the rewrite-rule extractor is an oracle here (C17): each record's fragment is fixed by one anchored rule on its additional info".into());
